@@ -20,7 +20,10 @@ ADVERSARIAL = [
     "…ellipsis…", "—dash—", "‼⁇", "(paren) [bracket] {brace}", "q", "qq", "Q q Q",
     "à la carte", "и мир", "õ ã", "ß", "ßß", "œuf", "ŒUF",
     "퟿", "﻿bom", "\u0000\u0000", "a\u0000", "\u0000a",
+    "５", "٣", "- ٣٣ -", "room ٣", "x² y³", "Ⅷ", "５００ml",
     " ".join("w%d" % i for i in range(70)), "x" * 300, "ab" * 40 + " " + "ab" * 40, "-".join("abcdefghij"[i % 10] for i in range(90)),
+    "".join(ch + "ß" for ch in (list("abcdefghijklmnopqrstuvwxyz") + [chr(c) for c in range(0x3B1, 0x3C9) if c != 0x3C2] + [chr(c) for c in range(0x430, 0x450)] + [chr(c) for c in range(0x561, 0x587)])[:90]),
+    "".join(ch + "œ" for ch in (list("abcdefghijklmnopqrstuvwxyz") + [chr(c) for c in range(0x3B1, 0x3C9) if c != 0x3C2] + [chr(c) for c in range(0x430, 0x450)] + [chr(c) for c in range(0x561, 0x587)])[:90]),
 ]
 
 
@@ -375,7 +378,8 @@ def gen_store_relations(prop, lang, rnd, titles, toks, ncases, big=False):
             c.add(sid, 100 + i, t, rt[i])
         qs = [random_query(lang, rnd, recs, toks) for _ in range(3)]
         if big:
-            qs = [w, w[:3]] + qs[:1]
+            rare = [x for t in recs for x in t.split() if x.lower() != w.lower() and len(x) >= 3]
+            qs = [w, w[:3]] + qs[:1] + ([w + " " + rnd.choice(rare), rnd.choice(rare) + " " + w] if rare else [])
         limits = list(range(0, n + 3)) if not big else [1, 2, 3]
         for lim in limits:
             c.op(op="limit", sid=sid, limit=lim)
@@ -450,7 +454,9 @@ def gen_histories(prop, lang, rnd, titles, toks, ncases, length=14, adversarial=
                 elif adversarial and rnd.random() < 0.4:
                     q = rnd.choice(ADVERSARIAL)
                 elif shared and rnd.random() < 0.6:
-                    q = rnd.choice([shared, shared[:2], shared[:3], shared + " "])
+                    q = rnd.choice([shared, shared[:2], shared[:3], shared + " ",
+                                    shared[1:2] + shared[0:1] + shared[2:3], shared[1:2] + shared[0:1] + shared[2:],
+                                    rnd.choice(script_letters(lang)) + shared[1:4]])
                 else:
                     q = random_query(lang, rnd, [h[0] for h in held], toks)
                 c.search(sid, q, want=["qtok", "fresh"], repeat=2)
@@ -487,6 +493,13 @@ def gen_marker_cases(lang, rnd, titles, toks, ncases):
                 k = rnd.randint(0, len(t) - 1)
                 piece = t[k:k + rnd.randint(1, 2)].replace("\u0000", "")
                 alts.append(dict(l=cps(piece), r=cps(piece[::-1])))
+            if rnd.random() < 0.3:
+                # the same query was answered under other markers just before
+                c.op(op="markers", sid=sid, l=cps("["), r=cps("]"))
+                c.search(sid, q)
+                c.op(op="markers", sid=sid, l=SENT_L, r=SENT_R)
+            if rnd.random() < 0.15:
+                q = rnd.choice(["５", "٣", "- ٣٣ -", "x²", "Ⅷ"])
             c.search(sid, q, alt=alts)
         cases.append(c)
     return cases
@@ -976,9 +989,18 @@ def gen_registry_cases(rnd, ncases, pools, toks, length=30):
                 L["titles"].append(t)
                 nrid += 1
             elif r < 0.63:
-                lim = rnd.choice([0, 1, 2, 3, 10, 25, 40])
+                lim = rnd.choice([0, 0, 1, 2, 3, 10, 25, 40])
+                if lim == 0 and L["titles"]:
+                    # first something that fills the result buffer ...
+                    w0 = (rnd.choice(L["titles"]).split() or ["a"])[0]
+                    c.search(1000 + i, w0, tag="sa%d" % i, want=["qtok", "fresh"])
+                    c.op(op="r_search", id=i, q=cps(w0))
                 c.op(op="r_limit", id=i, limit=lim)
                 c.op(op="limit", sid=1000 + i, limit=lim)
+                if lim == 0 or rnd.random() < 0.2:
+                    q = rnd.choice(["zzqq", "xyxy", "qj", "0000"])      # nothing in common with any title
+                    c.search(1000 + i, q, tag="sa%d" % i, want=["qtok", "fresh"])
+                    c.op(op="r_search", id=i, q=cps(q))
             elif r < 0.7:
                 l, rr = rnd.choice([("[", "]"), ("", ""), ("<b>", "</b>"), ("{{", "}}")])
                 c.op(op="r_markers", id=i, l=cps(l), r=cps(rr))
@@ -1103,5 +1125,67 @@ def gen_huge_store_cases(prop, lang, rnd, titles, ncases):
         else:
             c.search(sid, shared, want=["qtok", "unlimited"])
             c.search(sid, shared[:1], want=["qtok", "unlimited"])
+        cases.append(c)
+    return cases
+
+
+def gen_long_title_cases(lang, rnd):
+    """C01: long titles (up to the 200-300 characters the checks explore), rich in distinct grams, searched by
+    themselves and by their parts - counters, buffers and matrices at their largest"""
+    cases = []
+    longs = [t for t in ADVERSARIAL if len(t) > 100]
+    for t in longs:
+        c = Case("C01", "long-title", lang=lang)
+        sid = c.new_store(lang, limit=rnd.choice([1, 10]))
+        c.add(sid, 1, t, 1)
+        c.add(sid, 2, t[:len(t) // 2], 2)
+        for q in (t, t[:100], t[len(t) // 3:], t.upper() if len(t.upper()) == len(t) else t, t[:60] + " " + t[60:120]):
+            c.search(sid, q)
+        cases.append(c)
+    return cases
+
+
+def gen_vocab_cases(prop, lang, rnd, titles, toks, ncases):
+    """C07 / C06: many small stores over a tiny vocabulary (two content words with an inflected form each, two function
+    words of the language, a filler), so that records tie on most score components and the finer ones decide"""
+    cases = []
+    fws = [text(w["w"]) for w in LANGTAB[lang]["function_words"] if 2 <= len(w["w"]) <= 4] or ["of", "the"]
+    suffix = {"en": ["s", "es", "ing"], "de": ["n", "en", "e"], "es": ["s", "es"], "fr": ["s", "es"], "pt": ["s", "es"],
+              "ru": ["ы", "а", "ов"], "none": ["s", "es"]}[lang]
+    content = []
+    for t in titles:
+        tok = toks.get((lang, t))
+        for w in (words_of(tok) if tok else []):
+            if 4 <= len(w) <= 8 and all(chr(x).isalpha() for x in w):
+                content.append(text(w))
+    content = sorted(set(content))
+    for _ in range(ncases):
+        if len(content) < 3:
+            break
+        u, v, g = rnd.sample(content, 3)
+        vocab = [u, v, u + rnd.choice(suffix), v + rnd.choice(suffix), g] + rnd.sample(fws, min(2, len(fws)))
+        c = Case(prop, "vocab", lang=lang)
+        sid = c.new_store(lang)
+        n = rnd.randint(3, 5)
+        rt = distinct_ratings(rnd, n, hi=100)
+        seen = set()
+        for i in range(n):
+            t = " ".join(rnd.sample(vocab, rnd.randint(2, 3)))
+            if t in seen:
+                continue
+            seen.add(t)
+            c.add(sid, 100 + i, t, rt[i])
+        m = len(seen)
+        for _q in range(5):
+            q = " ".join(rnd.sample(vocab, rnd.randint(2, 3)))
+            perms = []
+            for _p in range(2):
+                o = list(range(m))
+                rnd.shuffle(o)
+                perms.append(o)
+            if prop == "C07":
+                c.search(sid, q, want=["qtok", "pairs"], max_pairs=6, perms=perms)
+            else:
+                c.search(sid, q, want=["qtok", "singles", "unlimited"])
         cases.append(c)
     return cases
